@@ -15,6 +15,8 @@ def handle (line : String) : String :=
     | some "hist" => toString (HistDriver.run s.args)
     | some "wpair" => toString (WorldDriver.runPair s.args)
     | some "wdiff" => toString (WorldDriver.runWDiff s.args)
+    | some "mut" => -- C12: the model of the conversion sites has no panic outcome (Properties/C12)
+        toString (Sexp.list [.atom "mut", (s.args.head?).getD (.atom "?"), .atom "nopanic"])
     | some "wspec" => toString (Spec.SpecDriver.run s.args)
     | _ => "bad-op"
 
